@@ -250,8 +250,11 @@ def run(ctx):
     states = trans = 0
     maxrel = 0.0
 
+    areas = [0]
+
     def acc(st, js):
         nonlocal maxrel
+        areas[0] += st.get("behaviours_with_a_covering_area_object", 0)
         for k in TOTAL_KEYS:
             total[k] += st[k]
         for src, dst in ((st["per_transport"], per_transport), (st["mismatch_classes"], classes),
@@ -342,6 +345,8 @@ def run(ctx):
         raise common.Infra("replay compared nothing, or an action of the specification was never taken (vacuous): %s" % total)
     if len(by_nodwell) != 2 or len(by_pattern) < 3:
         raise common.Infra("NODWELL on/off or the id patterns were not all exercised: %s %s" % (by_nodwell, by_pattern))
+    if areas[0] == 0:
+        raise common.Infra("no behaviour ran next to a non-point object covering the cells (vacuous for extended neighbours)")
     if total["corner_steps"] == 0:
         raise common.Infra("no SET had a neighbour inside the rectangle but outside the circle (vacuous for C20)")
     if set(per_transport) != set(TRANSPORTS.split(",")):
@@ -367,6 +372,7 @@ def run(ctx):
         "of_which_agreeing_on_all_transports": total["corner_steps_agreed"],
         "notifications_received": total["messages"],
         "behaviours_by_pattern": by_pattern,
+        "behaviours_next_to_a_covering_non_point_object": areas[0],
         "behaviours_by_nodwell": by_nodwell,
         "disagreeing_comparisons_by_class": classes,
         "grids": grids,
